@@ -52,6 +52,9 @@ def run(ctx):
     RF.check_plan_invariants(ctx, 'R6.3')
     check_registry(ctx)
     check_serializer(ctx)
+    from .. import rules_base as RB
+    ctx.rule('R6.B', 'base model: token-type containment, token flags / normal form, Token.match and imt behave as the abstract evaluation assumes', floor=1)
+    RB.check_base_model(ctx, 'R6.B', parts=('contains', 'flags', 'match', 'imt'))
 
 
 def check_sites(ctx, c, dom):
